@@ -126,6 +126,8 @@ func init() {
 				return
 			}
 			sig := f.Signature()
+			// the kind and the graph shape are part of a violation's identity: shrinking stays within them
+			site := " [kind=" + f.Kind + " shape=" + f.Shape + "]"
 			var res LoadResult
 			r.Exec(order)
 			if !r.Guard(x, "Load", map[string]any{"forest": f.Describe()}, func() { res = LoadForest(f, true, nil) }) {
@@ -165,7 +167,7 @@ func init() {
 				if !strings.HasPrefix(rs, "#/components/") {
 					d := cloneJSON(detail).(map[string]any)
 					d["external_ref_left"] = rs
-					r.Fail(x, "self-contained", sig, d)
+					r.Fail(x, "self-contained"+site, sig, d)
 					r.Outcome("external-ref-left")
 					return
 				}
@@ -175,7 +177,7 @@ func init() {
 			if err != nil {
 				d := cloneJSON(detail).(map[string]any)
 				d["reload_error"] = err.Error()
-				r.Fail(x, "reloads-without-external-refs:"+errClass(err.Error()), sig, d)
+				r.Fail(x, "reloads-without-external-refs:"+errClass(err.Error())+site, sig, d)
 				r.Outcome("reload-error")
 				return
 			}
@@ -190,7 +192,7 @@ func init() {
 				if e, ok := d["internalised_error"].(string); ok {
 					cl += ":" + errClass(e)
 				}
-				r.Fail(x, cl, sig, d)
+				r.Fail(x, cl+site, sig, d)
 			}
 			after := eraseRefs(generic(ExpandImpl(doc2, 4)))
 			bm, _ := before.(map[string]any)
@@ -221,7 +223,7 @@ func init() {
 					diffs = diffs[:6]
 				}
 				d["diff(original vs internalised)"] = diffs
-				r.Fail(x, "references-resolve-to-equal-content:"+diffClass(diffs[0]), sig, d)
+				r.Fail(x, "references-resolve-to-equal-content:"+diffClass(diffs[0])+site, sig, d)
 				r.Outcome("content-differs")
 				return
 			}
